@@ -31,6 +31,12 @@ type Opts struct {
 	BlockEdge func(Edge) bool
 	// NoFlags disables the exact tracking of constant boolean flags.
 	NoFlags bool
+	// CondKey gives a canonical key to a branch condition (after negations are stripped) and says
+	// whether the key holds when the condition is true. Once an edge has been taken the key's value
+	// is remembered along the path and later branches on the same key follow only the consistent
+	// edge, until an instruction for which Kill returns the key is passed.
+	CondKey func(cond ssa.Value) (key string, holdsWhenTrue bool, ok bool)
+	Kill    func(ssa.Instruction) []string
 }
 
 // Reached is the result of a traversal.
@@ -221,16 +227,51 @@ func Reach(fn *ssa.Function, starts []Pt, o Opts) *Reached {
 		if o.StopAt != nil && o.StopAt(in) {
 			continue
 		}
+		if o.Kill != nil {
+			if ks := o.Kill(in); len(ks) > 0 {
+				upd := map[string]int{}
+				for _, k := range ks {
+					upd["K:"+k] = -1
+				}
+				s = state{pt: s.pt, env: envSet(s.env, upd)}
+			}
+		}
 		if s.pt.I+1 < len(b.Instrs) {
 			push(state{pt: Pt{b, s.pt.I + 1}, env: s.env}, &s)
 			continue
 		}
 		// last instruction: follow successors
 		only := -1
+		condKey, condPol := "", false
 		if ifi, ok := in.(*ssa.If); ok {
 			only = condValue(ifi.Cond, s.env, tracked)
 			if only >= 0 {
 				only = 1 - only // value 1 (true) -> successor 0
+			}
+			if only < 0 && o.CondKey != nil {
+				c := ifi.Cond
+				neg := false
+				for {
+					if u, ok := c.(*ssa.UnOp); ok && u.Op == token.NOT {
+						c, neg = u.X, !neg
+						continue
+					}
+					break
+				}
+				if k, pol, ok := o.CondKey(c); ok {
+					if neg {
+						pol = !pol
+					}
+					condKey, condPol = "K:"+k, pol
+					if v, known := envGet(s.env, condKey); known {
+						// key value v; cond true iff v == pol
+						if v == pol {
+							only = 0
+						} else {
+							only = 1
+						}
+					}
+				}
 			}
 		}
 		for i, succ := range b.Succs {
@@ -243,6 +284,13 @@ func Reach(fn *ssa.Function, starts []Pt, o Opts) *Reached {
 			}
 			r.Edges[e] = true
 			env := s.env
+			if condKey != "" {
+				val := 0
+				if (i == 0) == condPol {
+					val = 1
+				}
+				env = envSet(env, map[string]int{condKey: val})
+			}
 			if len(tracked) > 0 {
 				// which predecessor index is b in succ?
 				upd := map[string]int{}
